@@ -6,8 +6,8 @@ def build_history(ex):
 
 
 PLAN = dict(
-    id="C03", api_files=['tracing/src/span.rs', 'tracing/src/instrument.rs'], level="proof", explanation="Every Span / guard / Instrumented operation gets a call-count contract on the span's OWN recording collector while a different (foreign) collector is installed as the current default: creation (new / new_root / child_of) = exactly one new_span on the current default; clone = one clone_span with the span's id; drop = one try_close per dropped handle; enter/guard drop, in_scope, entered/EnteredSpan::exit (no second exit, no close, no clone), EnteredSpan drop (exit before close); record (declared field one call, undeclared none), follows_from; disabled spans (none / new_disabled) make no call at all; Span::current clones from the default and binds to it; Instrumented polls and drops its inner future inside the span (enter < poll < exit, inner drop < exit < close). All loop-free over symbolic ids / readiness, so each contract holds for every program point; balance for whole programs follows by counting over these contracts with Rust's affine ownership of handles.",
-    functions_under_contract=['tracing/src/span.rs: Span::{new,new_root,child_of,new_with,make_with,new_disabled,none,current,enter,entered,in_scope,record,record_all,follows_from,do_enter,do_exit}, Clone for Inner, Drop for Span, Drop for Entered / EnteredSpan, EnteredSpan::exit', 'tracing/src/instrument.rs: Instrumented::poll, PinnedDrop for Instrumented'],
+    id="C03", api_files=['tracing/src/span.rs', 'tracing/src/instrument.rs'], level="proof", explanation="Every Span / guard / Instrumented operation gets a call-count contract on the span's OWN recording collector while a different (foreign) collector is installed as the current default: creation (new / new_root / child_of) = exactly one new_span on the current default; clone = one clone_span with the span's id; drop = one try_close per dropped handle; enter/guard drop, in_scope, entered/EnteredSpan::exit (no second exit, no close, no clone), EnteredSpan drop (exit before close); record (declared field one call, undeclared none), follows_from; disabled spans (none / new_disabled) make no call at all; Span::current clones from the default and binds to it; Instrumented polls and drops its inner future inside the span (enter < poll < exit, inner drop < exit < close). All loop-free over symbolic ids / readiness, so each contract holds for every program point; balance for whole programs follows by counting over these contracts with Rust's affine ownership of handles. Added after seed C03-3: Instrumented::into_inner, the *_with constructors (must use the collector they are given, never the current default) and or_current.",
+    functions_under_contract=['tracing/src/instrument.rs: Instrumented::into_inner (drops its span handle exactly once); tracing/src/span.rs: Span::{new_with,new_root_with,child_of_with} use the given collector, Span::or_current', 'tracing/src/span.rs: Span::{new,new_root,child_of,new_with,make_with,new_disabled,none,current,enter,entered,in_scope,record,record_all,follows_from,do_enter,do_exit}, Clone for Inner, Drop for Span, Drop for Entered / EnteredSpan, EnteredSpan::exit', 'tracing/src/instrument.rs: Instrumented::poll, PinnedDrop for Instrumented'],
     trusted_base=["Kani 0.68 / CBMC 6.11 / CaDiCaL; Kani's std build (nightly-2026-08-21), not the repo toolchain's", 'core::fmt::Formatter::pad stubbed to Ok(()) with -Z stubbing (panic-message formatting on infeasible error branches; no harness that uses it reads formatted text)', 'cfg(kani) thread_local! shim and once_cell::sync::Lazy contract stub (see overlay_additions)'],
     assumptions=["each handle is dropped at most once and mem::forget is excluded (Rust's affine typing)", "'same thread' for enter/exit: Kani has one thread", 'the lift from per-operation contracts to whole histories is mechanised in Verus (lemma_c03.verus.rs: balanced_protocol, nothing_after_last_close) over an operation alphabet {clone, drop, enter, exit} whose per-operation effects are the Kani obligations', 'balance over whole programs is the counting argument over the per-operation contracts (not mechanised)'],
     not_covered=['tracing-futures wrappers (WithDispatch etc.)', "spans disabled by the macros' filtering stages (C01)", 'sending handles across threads'],
